@@ -152,10 +152,7 @@ def dItem (tps : List Name) : Sexp → Option ItemW
 
 def P := "derive_more::core::fmt::"
 
-def traitPlaceholder : Trait → String
-  | .binary => "{:b}" | .debug => "{:?}" | .display => "{}" | .lowerExp => "{:e}"
-  | .lowerHex => "{:x}" | .octal => "{:o}" | .pointer => "{:p}" | .upperExp => "{:E}"
-  | .upperHex => "{:X}"
+def traitPlaceholder (tr : Trait) : String := String.ofList (defaultPlaceholder tr)
 
 def rDerefs (ds : List Name) : String :=
   ",".intercalate (ds.map fun d => String.ofList d ++ "=*" ++ String.ofList d)
